@@ -6,7 +6,7 @@ import pywt
 from fractions import Fraction
 import symtorch
 from symtorch import poly as P, tensor as T
-from vlib import core, oracles, smt
+from vlib import core, oracles, smt, lincheck
 from harness import dwtlib as D
 from harness import C01
 
@@ -117,6 +117,19 @@ def _facts(cfg):
             f['none_at_odd_level'] = any(m[j] and any(s % 2 for s in yh_s[j][-cfg['dim']:]) for j in range(len(m) - 1))
         except Exception:
             pass
+    f['none_unpad_then_present'] = False
+    if f['none_levels']:
+        try:
+            yl_s, yh_s = D.pyramid_shapes(cfg)
+            m = cfg['mask']; J = len(m); L = D.filt_len(cfg['wave'])
+            for ax in range(1, cfg['dim'] + 1):
+                lens = [s[-ax] for s in yh_s]
+                for j in range(J - 1):          # level j (0-based, finest first) masked; coarser level j+1 feeds it
+                    rec = 2 * lens[j + 1] if cfg['mode'] == 'periodization' else 2 * lens[j + 1] - L + 2
+                    if m[j] and rec > lens[j] and any(not m[i] for i in range(j)):
+                        f['none_unpad_then_present'] = True
+        except Exception:
+            pass
     f['per_short_inv'] = bool(cfg['mode'] == 'periodization' and any(_per_short_inv(n, L, cfg['J']) for n in dims))
     return f
 
@@ -130,145 +143,57 @@ def _per_short_inv(n, L, J):
     return False
 
 
+def case(cfg):
+    mask = cfg.get('mask') or []
+    B, C = cfg['B'], cfg['C']
+    sl, sh = D.pyramid_shapes(cfg)
+    in_specs = [('yl', (B, C) + tuple(sl))] + [('yh%d' % (j + 1), (B, C) + tuple(s)) for j, s in enumerate(sh)]
+    use_mask = any(mask)
+
+    def impl(pw, ts):
+        hs = [None if (use_mask and mask[j]) else h for j, h in enumerate(ts[1:])]
+        y = _inv(pw, cfg, ts[0], hs)
+        return [('rec', _extent(y, cfg) if use_mask else y)]
+
+    def impl_zeros(pw, ts):
+        hs = [h * 0 if (use_mask and mask[j]) else h for j, h in enumerate(ts[1:])]
+        return [('rec', _extent(_inv(pw, cfg, ts[0], hs), cfg))]
+
+    def ref(arrs):
+        hs = [None if (use_mask and mask[j]) else h for j, h in enumerate(arrs[1:])]
+        if cfg['dim'] == 1:
+            r = pywt.waverec([arrs[0]] + hs[::-1], cfg['wave'], mode=cfg['mode'], axis=-1)
+        else:
+            co = [arrs[0]] + [(None, None, None) if h is None else tuple(np.take(h, i, axis=-3) for i in range(3)) for h in hs[::-1]]
+            r = pywt.waverec2(co, cfg['wave'], mode=cfg['mode'], axes=(-2, -1))
+        return [_extent(r, cfg) if use_mask else r]
+    return in_specs, impl, impl_zeros, ref
+
+
 def run_config(cfg):
     res = core.Result(cfg)
     core.begin()
     facts = _facts(cfg)
-    mask = cfg.get('mask') or []
-    B, C = cfg['B'], cfg['C']
-    rt = symtorch.real_torch()
     try:
-        shapes_l, shapes_h = D.pyramid_shapes(cfg)
-        rows_full = _oracle_rows(cfg, shapes_l, shapes_h, [])
-        rows_mask = _oracle_rows(cfg, shapes_l, shapes_h, mask) if any(mask) else None
+        in_specs, impl, impl_zeros, ref = case(cfg)
     except Exception as e:
         res.status = 'skipped'; res.notes.append('oracle raised %s' % type(e).__name__)
         return res
-    scale = D.gain([rows_full])
-    tau = Fraction(1, 10 ** 9) * Fraction(scale)
-    t0 = time.time()
-    with symtorch.symbolic():
-        yl, yh, ids_l, ids_h = _sym_pyramid(cfg)
-        so = core.outcome(lambda: _inv(symtorch.sym(), cfg, yl, list(yh)))
-        som = None
-        if any(mask):
-            som = core.outcome(lambda: _inv(symtorch.sym(), cfg, yl, [None if mask[j] else h for j, h in enumerate(yh)]))
-    res.symexec_s = time.time() - t0
-    res.funcs = sorted(T.STATE.funcs_entered)
-    ids = _all_ids(ids_l, ids_h)
-    El, Eh, n = _basis_pyramid(cfg, shapes_l, shapes_h, mask)
-    tl = rt.tensor(El, dtype=rt.float64); th = [rt.tensor(e, dtype=rt.float64) for e in Eh]
-    ro = core.outcome(lambda: _inv(symtorch.real(), cfg, tl, list(th)))
-    if not D.same_outcome(res, so, ro):
-        return res
-    if som is not None:
-        rom = core.outcome(lambda: _inv(symtorch.real(), cfg, tl, [None if mask[j] else h for j, h in enumerate(th)]))
-        if not D.same_outcome(res, som, rom):
+    what = 'inverse DWT' + (' with None levels %s' % cfg['mask'] if any(cfg.get('mask') or []) else '')
+    if any(cfg.get('mask') or []):
+        # (a) None == zeros of the right shape, on the signal extent
+        lincheck.check_same(res, cfg, facts, in_specs, impl, impl_zeros, what=what + ' vs zeros', allow_both_raise=False)
+        if res.status != 'held':
             return res
-    if so[0] == 'raise' or (som is not None and som[0] == 'raise'):
-        bad = so if so[0] == 'raise' else som
-        res.status = 'violation'
-        res.violations.append(dict(what='inverse raises %s: %s on a forward-compatible pyramid' % (bad[1], bad[2][:120]), facts=facts,
-                                   replay=dict(kind='raise'), reproduced=True))
-        return res
-    y = so[1]; ry = ro[1]
-    exp_sp = rows_full.shape[:-1]
-    if tuple(y.shape) != (B, C) + tuple(exp_sp):
-        res.status = 'violation'
-        res.violations.append(dict(what='reconstruction has shape %s, PyWavelets gives %s' % (tuple(y.shape), (B, C) + tuple(exp_sp)), facts=facts,
-                                   replay=dict(kind='shape'), reproduced=tuple(ry.shape[1:]) == tuple(y.shape[1:])))
-        return res
-    dev = D.validate_linear([y.a], [ry], ids, n, B)
-    if som is not None:
-        dev = max(dev, D.validate_linear([som[1].a], [rom[1]], ids, n, B))
-    res.validated = dev
-    if dev > 1e-10 * scale:
-        res.status = 'error'; res.trace = 'symbolic operator deviates from real torch by %g' % dev
-        return res
-    st = smt.Stats(); solver = smt.Solver(stats=st)
-
-    def ref_rows(rows):
-        per = rows.reshape(-1, rows.shape[-1])
-        out = []
-        for b in range(B):
-            for c in range(C):
-                at = np.concatenate([ids_l[b, c].reshape(-1)] + [i[b, c].reshape(-1) for i in ids_h])
-                out.extend(core.ref_poly_rows(per, at))
-        return out
-    refs = ref_rows(rows_full)
-    sats = [('full',) + s for s in D.decide_bands(res, solver, [y.a], [refs], tau, ['rec'])]
-    if som is not None and not sats:
-        ym = som[1]
-        # (a) None == zeros of the right shape, on the signal extent: substitute 0 for the masked levels in the full run
-        zero_map = {}
-        for j, m in enumerate(mask):
-            if m:
-                for a in ids_h[j].reshape(-1):
-                    zero_map[int(a)] = P.ZERO
-        ye = _extent(y.a, cfg); yme = _extent(ym.a, cfg)
-        if ye.shape != yme.shape:
-            res.status = 'violation'
-            res.violations.append(dict(what='with None levels the output %s does not cover the signal extent %s' % (tuple(ym.shape), ye.shape), facts=facts,
-                                       replay=dict(kind='shape_none'), reproduced=True))
-            return res
-        subs = [p.subst(zero_map) for p in ye.reshape(-1)]
-        s1 = D.decide_bands(res, solver, [yme], [subs], tau, ['rec_none_vs_zeros'])
-        sats += [('none_vs_zeros',) + s for s in s1]
-        # (b) and equals PyWavelets given None
-        if not s1:
-            rm = ref_rows(rows_mask)
-            rme = np.array(rm, dtype=object).reshape((B, C) + rows_mask.shape[:-1])
-            s2 = D.decide_bands(res, solver, [yme], [list(_extent(rme, cfg).reshape(-1))], tau, ['rec_none_vs_pywt'])
-            sats += [('none_vs_pywt',) + s for s in s2]
-    if not D.canary_ok(res, y.a.reshape(-1)[0] - refs[0], ids[0], tau):
-        return res
-    res.stats = st
-    for kind, name, k, model in sats:
-        pl = core.model_array(model, ids_l); ph = [core.model_array(model, i) for i in ids_h]
-        rep = _replay_values(cfg, pl, ph, kind, k, float(tau))
-        res.violations.append(dict(what='[%s] reconstruction sample %d differs by %.3g' % (kind, k, rep['diff']), facts=facts,
-                                   replay=dict(kind='values', sub=kind, yl=pl.tolist(), yh=[p.tolist() for p in ph], k=int(k), tau=float(tau)),
-                                   reproduced=rep['reproduced']))
-    if res.violations:
-        res.status = 'violation'
+    # (b) equals PyWavelets
+    lincheck.check_linear(res, cfg, facts, in_specs, impl, ref, what=what)
     return res
 
 
-def _replay_values(cfg, pl, ph, kind, k, tau):
-    rt = symtorch.real_torch()
-    mask = cfg.get('mask') or []
-    tl = rt.tensor(pl, dtype=rt.float64); th = [rt.tensor(p, dtype=rt.float64) for p in ph]
-    use_none = kind in ('none_vs_zeros', 'none_vs_pywt')
-    got = _inv(symtorch.real(), cfg, tl, [None if (use_none and mask[j]) else h for j, h in enumerate(th)]).detach().numpy()
-    if kind == 'none_vs_zeros':
-        ref = _inv(symtorch.real(), cfg, tl, [h * 0 if mask[j] else h for j, h in enumerate(th)]).detach().numpy()
-        got = _extent(got, cfg); ref = _extent(ref, cfg)
-    else:
-        ref = D.pywt_rec(cfg, pl, [None if (use_none and mask[j]) else p for j, p in enumerate(ph)]) if cfg['dim'] == 1 else None
-        if ref is None:
-            co = [pl] + [(None, None, None) if (use_none and mask[j]) else tuple(np.take(p, i, axis=-3) for i in range(3)) for j, p in list(enumerate(ph))[::-1]]
-            ref = pywt.waverec2(co, cfg['wave'], mode=cfg['mode'], axes=(-2, -1))
-        if use_none:
-            got = _extent(got, cfg); ref = _extent(ref, cfg)
-    if got.shape != ref.shape:
-        return dict(reproduced=True, diff=float('inf'))
-    diff = abs(float(got.reshape(-1)[k]) - float(ref.reshape(-1)[k]))
-    return dict(reproduced=diff > tau / 2, diff=diff)
-
-
 def replay(payload):
-    cfg = payload['config']; rp = payload['replay']
+    cfg = payload['config']
     core.begin()
-    rt = symtorch.real_torch()
-    if rp['kind'] == 'values':
-        r = _replay_values(cfg, np.array(rp['yl']), [np.array(h) for h in rp['yh']], rp['sub'], rp['k'], rp['tau'])
-        return dict(reproduced=r['reproduced'], detail=r)
-    shapes_l, shapes_h = D.pyramid_shapes(cfg)
-    B, C = cfg['B'], cfg['C']
-    mask = cfg.get('mask') or []
-    tl = rt.zeros((B, C) + tuple(shapes_l), dtype=rt.float64)
-    th = [None if (mask and mask[j]) else rt.zeros((B, C) + tuple(s), dtype=rt.float64) for j, s in enumerate(shapes_h)]
-    ro = core.outcome(lambda: _inv(symtorch.real(), cfg, tl, th))
-    if rp['kind'] == 'raise':
-        return dict(reproduced=ro[0] == 'raise', detail=ro[:3])
-    return dict(reproduced=True, detail='shape check: see run output')
+    in_specs, impl, impl_zeros, ref = case(cfg)
+    if payload['replay'].get('kind') == 'same':
+        return lincheck.replay_same(payload, in_specs, impl, impl_zeros)
+    return lincheck.replay_generic(payload, in_specs, impl, ref)
